@@ -470,6 +470,8 @@ func (s *Store[H]) setHead(ctx context.Context, write datastore.Write, to uint64
 
 	// update the contiguous head
 	s.contiguousHead.Store(&newHead)
+	// and lower the published height accordingly, SetHeight only moves it up
+	s.heightSub.Init(newHead.Height())
 	if err := writeHeaderHashTo(ctx, write, newHead, headKey); err != nil {
 		return fmt.Errorf("writing headKey in batch: %w", err)
 	}
